@@ -1088,7 +1088,8 @@ static void walk_ports_recurse0(const Port& p, char* name_buffer,
 #ifdef NDEBUG
     (void)write_space;
 #endif
-    const char* hash_ptr = strchr(read_head + 1,'#');
+    // read_head points at the terminator once a trailing "#N/" was consumed
+    const char* hash_ptr = *read_head ? strchr(read_head + 1,'#') : NULL;
     ssize_t to_copy = hash_ptr ? hash_ptr - read_head : strlen(read_head);
 
     // Check write space is sufficient
